@@ -300,7 +300,8 @@ def module_load(chk):
             vt = U(val)
             bits8 = p.holds("self.weight_qtype.bits == 8")
             cls = "QBytesTensor" if bits8 else "QBitsTensor"
-            loader = f"{cls}.load_from_state_dict({sd}, {prefix} + 'weight' + '.')"
+            from ..core import canon_text
+            loader = canon_text(f"{cls}.load_from_state_dict({sd}, {prefix} + 'weight' + '.')")
             ok_cls = loader in vt and (bits8 or f"{loader}.optimize()" in vt)
             chk.require("C10.R2", site, ok_cls, f"load: {'8-bit' if bits8 else 'low-bit'} flattened weight rebuilt by {cls}.load_from_state_dict(state_dict, prefix + 'weight.'){'' if bits8 else '.optimize()'}", "QModuleMixin._load_from_state_dict", f"weight loader for bits8={bits8}", "reloading a frozen model of that bit width: wrong class or prefix")
             is_param = isinstance(val, ast.Call) and U(val.func) == "torch.nn.Parameter"
